@@ -4,7 +4,7 @@ From RJ Require Import Base.Outcome Base.F64 Model.Token Model.Ast Model.RefCore
 From RJ Require Import Proofs.RefSem_proofs Proofs.RefSem_laws Proofs.RefSem_params.
 From RJ Require Import Model.Analyze Proofs.RefScope_defs Proofs.RefScope_main Proofs.RefScope_static.
 From RJ Require Import Proofs.RefInherit_proofs Proofs.RefNeed_proofs.
-From RJ Require Import Proofs.RefDead_defs Proofs.RefDead_proofs Proofs.RefDead_main Proofs.RefDead_thm Proofs.RefDead_builtins Proofs.RefDead_final.
+From RJ Require Import Proofs.RefDead_defs Proofs.RefDead_proofs Proofs.RefDead_main Proofs.RefDead_thm Proofs.RefDead_builtins Proofs.RefDead_final Proofs.RefCoin_proofs.
 Local Open Scope N_scope.
 
 (* ---- the interpreter is a function; more fuel / a larger stack limit never change a verdict ---- *)
@@ -231,13 +231,30 @@ Theorem C02_dead_local_irrelevant : forall sp xid e1 e2 body,
   forall fuel c, run fuel c (ELocal sp [MkBind xid None e1] body) = run fuel c (ELocal sp [MkBind xid None e2] body).
 Proof. exact dead_local_irrelevant_full. Qed.
 
-(* coincidence in its general form: related environments (equal on the free variables) give related results;
-   instance needed for  local x = e; x  ==  e : an unused extra frame is invisible *)
-Definition C02_goal_rw_local_name_full : Prop := forall sp sp2 xid e fuel c t j,
-  id_value xid <> s_std -> StaticOK [s_std] false e ->
-  run fuel c e = (t, Ok j) ->
-  exists fuel' lim', run fuel' {| c_limit := lim'; c_bfs := c_bfs c; c_ts_tail := c_ts_tail c |}
-                         (ELocal sp [MkBind xid None e] (EIdent sp2 xid)) = (t, Ok j).
+(* ---- coincidence for an unused extra frame, and  local x = e; x  ==  e  (bare) ---- *)
+Theorem C02_extra_frame_invisible : forall x e body fuel c d,
+  closed (rm x [s_std]) false body ->
+  rrel (ans_rel x (dframe x e) [])
+       (run_task fuel c (TEval (FVars [] [(x, e)] :: init_env) body) d)
+       (run_task fuel c (TEval init_env body) d).
+Proof. exact extra_frame_invisible. Qed.
+
+Theorem C02_rw_local_name_bare : forall x e f c,
+  closed (rm x [s_std]) false e -> fits c 0 ->
+  settled (snd (run_top_at 1 e c (run_task f c))) ->
+  run_core (S (S (S f))) c (CLocal [(x, e)] (CVar x)) = run_top_at 1 e c (run_task f c).
+Proof. exact rw_local_name_bare. Qed.
+
+Theorem C02_rw_local_name_source : forall sp sp2 xid e f c,
+  id_value xid <> s_std -> StaticOK [s_std] false e -> fits c 0 ->
+  settled (snd (run_top_at 1 (desugar e) c (run_task f c))) ->
+  run (S (S (S f))) c (ELocal sp [MkBind xid None e] (EIdent sp2 xid)) = run_top_at 1 (desugar e) c (run_task f c).
+Proof. exact rw_local_name_source. Qed.
+
+(* what separates `run_top_at 1 e` from `run e`: shifting every depth and the limit by one (goal) *)
+Definition C02_goal_depth_shift : Prop := forall x f lim b ts,
+  run_top_at 1 x {| c_limit := lim + 1; c_bfs := b; c_ts_tail := ts |} (run_task f {| c_limit := lim + 1; c_bfs := b; c_ts_tail := ts |})
+  = run_core f {| c_limit := lim; c_bfs := b; c_ts_tail := ts |} x.
 
 (* ---- not proved (kept as goals): the two documented deviations of the implementation can only
         change WHICH error is reported, or turn an error into a value — never a value ---- *)
@@ -361,3 +378,6 @@ Print Assumptions C02_laws_nonvacuous.
 Print Assumptions C02_builtin_sim.
 Print Assumptions C02_dead_local_core.
 Print Assumptions C02_dead_local_irrelevant.
+Print Assumptions C02_extra_frame_invisible.
+Print Assumptions C02_rw_local_name_bare.
+Print Assumptions C02_rw_local_name_source.
